@@ -400,7 +400,15 @@ func (f *Fresh) funcResults(fn *ssa.Function) []int {
 // argument on nodes reachable from their first argument, so the callback's first parameter is as fresh as that argument.
 var callbackDrivers = map[string]bool{
 	modPath + "/internal/queryparser.Walk": true,
-	modPath + "/internal/queryparser.walk": true,
+}
+
+// isCallbackDriver: the exported Walk (by name) or its unexported recursive worker (by shape: anchors.go walkInner).
+func (f *Fresh) isCallbackDriver(cc *ssa.CallCommon) bool {
+	if callbackDrivers[calleeName(cc)] {
+		return true
+	}
+	g := calleeFunc(cc)
+	return g != nil && f.c.a != nil && f.c.a.WalkInner != nil && g == f.c.a.WalkInner
 }
 
 func (f *Fresh) paramLevel(p *ssa.Parameter) int {
@@ -416,7 +424,7 @@ func (f *Fresh) paramLevel(p *ssa.Parameter) int {
 		l := -1
 		allInstrs(fn.Parent(), func(i ssa.Instruction) {
 			cc := callCommon(i)
-			if cc == nil || !callbackDrivers[calleeName(cc)] {
+			if cc == nil || !f.isCallbackDriver(cc) {
 				return
 			}
 			for _, a := range cc.Args {
